@@ -5,6 +5,7 @@ import (
 	"fmt"
 	"io"
 	"os"
+	"runtime"
 	"sort"
 	"strings"
 	"testing"
@@ -29,6 +30,8 @@ func TestVerifSim(t *testing.T) {
 			"C28": func(t *testing.T, r *simkit.Run) { runWorld(t, r) },
 			// gateway part of C41 (stopping the send pipeline never drops accepted sends)
 			"C41gate": func(t *testing.T, r *simkit.Run) { runWorld(t, r) },
+			// client part of C23: real pkg/client sessions against the real gateway
+			"C23client": func(t *testing.T, r *simkit.Run) { runWorld(t, r) },
 		},
 		Real: []string{"pkg/gateway/core.Server (onOpen/onData inbound buffering, auth gate, async send executor, DrainSends, Stop, close paths)",
 			"pkg/gateway/protocol/wkproto.Adapter behind a pass-through recording tap", "pkg/protocol/codec (frame codec, all versions 1-6)",
@@ -42,7 +45,8 @@ func TestVerifSim(t *testing.T) {
 			"C23 non-trivial = the decoder was called on a buffer ending inside a frame AND at least three frames reached the handler, or a corruption fault fired; " +
 			"every C23 run also decodes every prefix of a clean and of a mutated stream directly through Adapter.Decode. " +
 			"C41gate: 1-4 send workers with more ordering shards than workers and at most one shard more in use than there are workers, Server.Stop at a tape-chosen step with a release budget of 2-100 ms; " +
-			"non-trivial = Stop ran while at least one admitted SEND had not reached the handler or was parked in it.",
+			"non-trivial = Stop ran while at least one admitted SEND had not reached the handler or was parked in it. " +
+			"C23client: every peer is a real pkg/client session over a pipe the harness owns; non-trivial = the server-to-client stream was cut inside a delivery AND the client handed at least three RECV/SENDACK results to its caller, or a corruption fault fired.",
 		Assumptions: []string{"testing/synctest fake clock and quiescence semantics (go1.26.8)",
 			"transport writes never block (as with the asynchronous gnet transport): back-pressure is a bounded outbound buffer that rejects writes",
 			"one OnData call at a time per connection (per-connection actor, as in the gnet transport)",
@@ -60,7 +64,8 @@ var classProp = map[string]string{
 	"drain-returned-with-work-inflight": "C28", "dispatch-after-drain-complete": "C28", "write-not-through": "C28", "send-unanswered": "C28",
 	"outbound-garbled": "C28", "drain-not-completing": "C28", "push-order": "C28",
 	"send-admitted-after-stop": "C41gate", "send-dispatched-after-stop": "C41gate", "admitted-send-never-dispatched": "C41gate",
-	"dispatch-without-admission": "C41gate",
+	"dispatch-without-admission": "C41gate", "client-frames-mismatch": "C23client", "client-frame-after-disconnect": "C23client",
+	"client-frames-missing": "C23client", "client-goroutine-left-after-close": "C23client", "client-unbounded-allocation": "C23client",
 }
 
 // sharedClass: classes of the C28 oracle that are also C41 clauses at the gateway
@@ -71,6 +76,9 @@ func (q *gworld) fail(class, sig, detail string, facts map[string]any) {
 	p := classProp[class]
 	if q.r.Property == "C41gate" && sharedC41[class] {
 		p = "C41gate" // a SEND dispatched twice, out of order or altered is not "exactly once"
+	}
+	if q.r.Property == "C23client" && p == "C23" {
+		p = "C23client" // end to end: the gateway decodes what the real client wrote
 	}
 	if p != "*" && p != q.r.Property {
 		q.r.Probe("run_ended_by_other_property:" + class)
@@ -122,6 +130,37 @@ type cfg struct {
 	SendBias     int
 	Saturable    bool // more ordering shards in use than send workers (C41gate only)
 	StopHold     bool // handlers stay parked while Stop waits (slower than any release budget)
+	RealClient   bool // every peer is a real pkg/client session (C23client)
+}
+
+// drawCfgClient draws the world of the C23 client part.
+func drawCfgClient(r *simkit.Run) cfg {
+	tp := r.Tape
+	c := cfg{RealClient: true, Auth: true, SetUID: true, CloseOnErr: true}
+	c.Sessions = 1 + tp.Weighted([]int{3, 2, 1})
+	c.HandlerMode = []int{0, 2}[tp.Weighted([]int{3, 2})]
+	c.QueueCap = 8
+	c.Workers = []int{1, 8}[tp.Intn(2)]
+	c.BatchWait = []time.Duration{time.Millisecond, -1}[tp.Intn(2)]
+	c.BatchRecords = []int{128, 1, 3}[tp.Intn(3)]
+	c.BatchBytes = 512 * 1024
+	c.MaxInbound, c.MaxOutbound = 1<<20, 1<<20
+	c.IdleTimeout = 3 * time.Minute
+	c.ReleaseTO = 100 * time.Millisecond
+	c.ParkFrames = tp.Intn(3) == 0
+	c.NoFaults = tp.Intn(4) == 0
+	if !c.NoFaults {
+		c.FCorrupt = tp.Intn(2) == 0
+		c.FReset = tp.Intn(3) == 0
+		c.FStall = tp.Intn(4) == 0
+		c.FKick = tp.Intn(3) == 0
+	}
+	c.Push = true
+	c.SplitBias = tp.Weighted([]int{1, 3, 2})
+	c.Frames = 3 + tp.Intn(8)
+	c.Burst = 1
+	c.SendBias = 10
+	return c
 }
 
 // drawCfg41 draws the world of the C41 gateway part: the send worker pool may be
@@ -170,6 +209,9 @@ func drawCfg41(r *simkit.Run) cfg {
 func drawCfg(r *simkit.Run) cfg {
 	if r.Property == "C41gate" {
 		return drawCfg41(r)
+	}
+	if r.Property == "C23client" {
+		return drawCfgClient(r)
 	}
 	tp := r.Tape
 	c28 := r.Property == "C28"
@@ -286,6 +328,9 @@ type engine struct {
 	stopStep     int  // step of the Server.Stop call (0 = none)
 	stopWithWork bool // Stop began while an admitted SEND was queued or parked in the handler
 	leakExpected bool // a recorded violation explains goroutines that can never finish
+
+	allocBase     uint64 // C23client: runtime TotalAlloc and goroutine count when the run began
+	goroutineBase int
 }
 
 func runWorld(t *testing.T, r *simkit.Run) {
@@ -312,6 +357,10 @@ func runWorld(t *testing.T, r *simkit.Run) {
 	simkit.Bubble(t, r, func() {
 		q := &gworld{r: r, w: simkit.NewWorld(r), cfg: c, codec: codec.New(), listeners: map[string]*simListener{}, conns: map[int]*simConn{}}
 		e := &engine{q: q, c41: r.Property == "C41gate"}
+		if c.RealClient {
+			e.allocBase = totalAlloc()
+			e.goroutineBase = runtime.NumGoroutine()
+		}
 		defer e.teardown()
 		if !e.setup() {
 			return
@@ -336,6 +385,8 @@ func runWorld(t *testing.T, r *simkit.Run) {
 		}
 		if e.c41 {
 			r.Nontrivial = e.stopWithWork
+		} else if c.RealClient {
+			r.Nontrivial = (e.splitSeen && r.Probes["client.recv_delivered"]+r.Probes["client.sendack_delivered"] >= 3) || r.Faults["corrupt_bitflip"]+r.Faults["corrupt_truncate"]+r.Faults["corrupt_oversize_length"]+r.Faults["corrupt_garbage"] > 0
 		} else if r.Property == "C28" {
 			r.Nontrivial = e.acksTotal > 0 && (faults > 0 || e.overlapSeen || e.drainStep > 0)
 		} else {
@@ -413,12 +464,19 @@ func (e *engine) setup() bool {
 		q.readers.Add(1)
 		go conn.reader()
 	}
-	return true
+	if c.RealClient {
+		e.setupRealClients()
+	}
+	return q.r.InfraErr == ""
 }
 
 func (e *engine) teardown() {
 	q := e.q
 	q.w.CloseAll(decClosed)
+	if q.cfg.RealClient {
+		e.teardownRealClients()
+		defer e.checkClientResidue()
+	}
 	if e.srv != nil {
 		if !e.stopping {
 			e.stopping = true
@@ -481,6 +539,9 @@ func (e *engine) pendingWork() bool {
 		if cl.conn.busy.Load() {
 			return true
 		}
+		if cl.rc != nil && e.rcPending(cl) {
+			return true
+		}
 		if e.c41 && cl.admitted > cl.nHSends {
 			return true // admitted work must reach the handler whatever happened to the session
 		}
@@ -515,6 +576,22 @@ func (e *engine) workDone() bool {
 	for _, cl := range q.clients {
 		if !cl.opened {
 			return false
+		}
+		if cl.rc != nil {
+			rc := cl.rc
+			if len(cl.sock) > 0 && !cl.closed && !cl.closeSent {
+				return false
+			}
+			if !rc.farClosed && (cl.rcPendingOut() > 0 || rc.wireBusy.Load()) && !cl.stalled {
+				return false
+			}
+			if e.rcAlive(cl) && !cl.closed && rc.opsLeft > 0 && !e.quiet {
+				return false
+			}
+			if cl.closed && !rc.farClosed {
+				return false
+			}
+			continue
 		}
 		if cl.closed {
 			continue
@@ -608,6 +685,10 @@ func (e *engine) collect() []simkit.Action {
 		conn := cl.conn
 		if cl.opened && !cl.closed {
 			open++
+		}
+		if cl.rc != nil {
+			e.collectRC(cl, &acts, faults)
+			continue
 		}
 		if !cl.opened {
 			if !e.final && !e.stopping {
@@ -1279,6 +1360,12 @@ func (e *engine) observe() {
 		return res[i].id < res[j].id
 	})
 	for _, cl := range q.clients {
+		if cl.rc != nil {
+			e.observeRC(cl)
+			if q.r.Failed() || q.tainted {
+				return
+			}
+		}
 		e.observeConn(cl, step)
 		if q.r.Failed() || q.tainted {
 			return
@@ -1699,6 +1786,15 @@ func (e *engine) finalPhase() {
 
 func (e *engine) reportUnanswered() {
 	q := e.q
+	if q.cfg.RealClient {
+		for _, cl := range q.clients {
+			if cl.rc != nil && !e.finalRC(cl) {
+				return
+			}
+		}
+		q.r.Probe("client.final_not_settled")
+		return
+	}
 	if e.c41 {
 		for _, cl := range q.clients {
 			if cl.admitted > cl.nHSends {
@@ -1737,6 +1833,9 @@ func (e *engine) finalChecks() bool {
 	for _, cl := range q.clients {
 		if !cl.opened {
 			continue
+		}
+		if cl.rc != nil && !e.finalRC(cl) {
+			return false
 		}
 		sends := cl.sends()
 		delivered := 0
@@ -1778,7 +1877,7 @@ func (e *engine) finalChecks() bool {
 			}
 		}
 		// the client-side streaming decode must yield the frames that were written
-		if !cl.recvBad && len(cl.rbuf) == 0 && cl.pendingOut() == 0 {
+		if cl.rc == nil && !cl.recvBad && len(cl.rbuf) == 0 && cl.pendingOut() == 0 {
 			c := cl.conn
 			c.mu.Lock()
 			var types []frame.FrameType
